@@ -20,7 +20,7 @@ use std::collections::{BTreeMap, BTreeSet};
 pub const META: PropertyMeta = PropertyMeta {
     id: "C09",
     level: "exploration",
-    rule: "cases: a pre-history on device 0 synced to the server, 2..3 cloned devices with 0..3 offline edits each drawn so that the case is one of {no conflict, soft conflict on a folder, soft conflict on account/identity logs, hard conflict (one device compacted a folder)}; every device then calls execute_sync concurrently. The direct client parks every request (exists, status, sync, scan, diff, patch, ...) at a gate and the harness grants exactly one parked request at a time; a schedule is the sequence of grant choices. Per case the schedules are enumerated in DFS (odometer) order up to a cap (40 quick / 1500 thorough; `exhaustive` is reported per case when the whole tree fits) plus 8 scripts drawn by proptest; every schedule re-executes from copied template directories. Oracle per schedule: every sync call terminates (no task left parked or unfinished) and ends in Ok or an error value; after every granted request the server's logs are read: every record ever present on the server after a request is still present at the end (no accepted event dropped), commits are the SHA-256 of their records and the in-memory trees equal storage; finally one sequential round-robin to a fixpoint must converge as in C04. Non-trivial = a request of another device was served between one device's status and its sync/patch. Distinct = distinct (case, schedule).",
+    rule: "cases: a pre-history on device 0 synced to the server, 2..3 cloned devices with 0..3 offline edits each drawn so that the case is one of {no conflict, soft conflict on a folder, soft conflict on account/identity logs, hard conflict (one device compacted a folder)}; every device then calls execute_sync concurrently. The direct client parks every request (exists, status, sync, scan, diff, patch, ...) at a gate and the harness grants exactly one parked request at a time; a schedule is the sequence of grant choices. Per case the schedules are enumerated in DFS (odometer) order up to a cap (40 quick / 1500 thorough; `exhaustive` is reported per case when the whole tree fits) plus 8 scripts drawn by proptest plus the policy schedules (for every device x and every hold point in {sync, scan, diff, patch}: x runs alone up to that request and is held there while the other devices sync completely - in both orders, optionally one of them before x starts, optionally held at the same point too - then x resumes); every schedule re-executes from copied template directories. Oracle per schedule: every sync call terminates (no task left parked or unfinished) and ends in Ok or an error value; after every granted request the server's logs are read: every record ever present on the server after a request is still present at the end (no accepted event dropped), commits are the SHA-256 of their records and the in-memory trees equal storage; finally one sequential round-robin to a fixpoint must converge as in C04. Non-trivial = a request of another device was served between one device's status and its sync/patch. Distinct = distinct (case, schedule).",
     assumptions: &[
         "interleaving granularity is one whole request: the server handles a request under its per-account write lock, which is assumed (races inside a request are not explored)",
         "the tolerated C04 known findings apply to the final convergence step",
@@ -92,10 +92,46 @@ pub struct SchedOutcome {
     pub granted: Vec<(usize, &'static str)>,
     pub interposed: bool,
     pub errors: Vec<String>,
+    /// the choice made at each step (a plain script that replays this schedule)
+    pub choices: Vec<u8>,
+}
+
+/// A schedule given as segments: run device `.0` until it is parked at request `.1` ("end" =
+/// until its sync call returns), then go on with the next segment. Reaches the deep, narrow
+/// interleavings (one device held right before its write while others sync completely) that the
+/// breadth of the DFS order and random scripts rarely hit.
+pub type Policy = Vec<(usize, &'static str)>;
+
+pub fn policies(ndev: usize) -> Vec<Policy> {
+    let holds = ["sync", "scan", "diff", "patch"];
+    let mut out = vec![];
+    for x in 0..ndev {
+        for h in holds {
+            let others: Vec<usize> = (0..ndev).filter(|d| *d != x).collect();
+            if others.len() == 1 {
+                out.push(vec![(x, h), (others[0], "end"), (x, "end")]);
+            } else {
+                for (a, b) in [(others[0], others[1]), (others[1], others[0])] {
+                    // a syncs completely first, then x runs up to its hold point, b syncs, x resumes
+                    out.push(vec![(a, "end"), (x, h), (b, "end"), (x, "end")]);
+                    // x is held first, then both others sync
+                    out.push(vec![(x, h), (a, "end"), (b, "end"), (x, "end")]);
+                    // both others are held too: a up to its own write, x up to h, b completes, a, x
+                    out.push(vec![(a, h), (x, h), (b, "end"), (a, "end"), (x, "end")]);
+                }
+            }
+        }
+    }
+    out
+}
+
+pub async fn run_schedule(t: &RaceTemplate, script: &[u8], tol: Tolerate, out: &mut SchedOutcome) -> CheckResult {
+    run_schedule_with(t, script, None, tol, out).await
 }
 
 /// Run one schedule. `script[i] % options` picks the parked request granted at step i.
-pub async fn run_schedule(t: &RaceTemplate, script: &[u8], tol: Tolerate, out: &mut SchedOutcome) -> CheckResult {
+pub async fn run_schedule_with(t: &RaceTemplate, script: &[u8], policy: Option<&Policy>, tol: Tolerate, out: &mut SchedOutcome) -> CheckResult {
+    let mut seg = 0usize;
     let mut w = SyncWorld::from_template(&t.template).await?;
     let ndev = w.devices.len();
     let (tx, mut rx) = tokio::sync::mpsc::unbounded_channel();
@@ -112,6 +148,9 @@ pub async fn run_schedule(t: &RaceTemplate, script: &[u8], tol: Tolerate, out: &
     let mut finished = vec![false; ndev];
     let mut results: Vec<Option<Result<(), (bool, String)>>> = vec![None; ndev];
     let mut seen_on_server: BTreeMap<String, BTreeSet<[u8; 32]>> = BTreeMap::new();
+    // events dropped by a concurrent rewind-and-patch (known finding): expected back at the end
+    let mut pending_heal: BTreeMap<String, BTreeSet<[u8; 32]>> = BTreeMap::new();
+    let mut transient: Option<Failure> = None;
     // per device: has it received its status and not yet sent its write
     let mut between_status_and_write = vec![false; ndev];
     let started = std::time::Instant::now();
@@ -158,7 +197,33 @@ pub async fn run_schedule(t: &RaceTemplate, script: &[u8], tol: Tolerate, out: &
         parked.sort_by_key(|p| p.0);
         let k = parked.len();
         out.options.push(k);
-        let choice = script.get(step).copied().unwrap_or(0) as usize % k;
+        let choice = match policy {
+            None => script.get(step).copied().unwrap_or(0) as usize % k,
+            Some(pol) => loop {
+                match pol.get(seg) {
+                    None => break 0,
+                    Some((dev, until)) => {
+                        if *dev >= ndev || finished[*dev] {
+                            seg += 1;
+                            continue;
+                        }
+                        match parked.iter().position(|p| p.0 == *dev) {
+                            Some(ix) if *until != "end" && parked[ix].1 == *until => {
+                                // hold point reached: leave the device parked there
+                                seg += 1;
+                                continue;
+                            }
+                            Some(ix) => break ix,
+                            None => {
+                                seg += 1;
+                                continue;
+                            }
+                        }
+                    }
+                }
+            },
+        };
+        out.choices.push(choice as u8);
         let (d, req, go) = parked.remove(choice);
         // non-trivial: another device's request is served while d2 sits between status and write
         if (0..ndev).any(|o| o != d && between_status_and_write[o]) {
@@ -214,10 +279,30 @@ pub async fn run_schedule(t: &RaceTemplate, script: &[u8], tol: Tolerate, out: &
                     } else {
                         format!("c09/accepted-event-dropped/{lk}/by-{req}")
                     };
-                    return Err(Failure::new(
+                    let f = Failure::new(
                         sig,
                         format!("schedule {:?}: event {} was on the server's {name} log after an earlier request but request {req} of device {d} removed it", out.granted, hex::encode(&missing[..4])),
-                    ));
+                    );
+                    if req == "patch" && !t.has_compaction {
+                        // known finding: the drop by a concurrent rewind-and-patch is transient on the
+                        // unchanged tree (the overwritten device pushes again). Keep going and judge
+                        // at the end whether the event came back: a permanent loss is another defect.
+                        for c in seen.iter().filter(|c| !now.contains(*c)) {
+                            pending_heal.entry(name.clone()).or_default().insert(*c);
+                        }
+                        if transient.is_none() {
+                            transient = Some(f);
+                        }
+                        continue;
+                    }
+                    return Err(f);
+                }
+            }
+            for (name, gone) in &pending_heal {
+                if let Some(seen) = seen_on_server.get_mut(name) {
+                    for c in gone {
+                        seen.remove(c);
+                    }
                 }
             }
             for (name, l) in &logs {
@@ -287,6 +372,24 @@ pub async fn run_schedule(t: &RaceTemplate, script: &[u8], tol: Tolerate, out: &
             if let Some(f) = conv.deferred.take() {
                 // tolerated C04 finding: not this property's subject
                 let _ = f;
+            }
+            if let Some(f) = transient {
+                // did the transiently dropped events come back?
+                let sv = w.server.read().await;
+                if let Some(st) = sv.storage.as_ref() {
+                    let logs = all_logs(st).await?;
+                    for (name, gone) in &pending_heal {
+                        let now: BTreeSet<[u8; 32]> = logs.get(name).map(|l| l.iter().map(|r| r.commit).collect()).unwrap_or_default();
+                        if let Some(c) = gone.iter().find(|c| !now.contains(*c)) {
+                            let lk = name.split(':').next().unwrap_or("");
+                            return Err(Failure::new(
+                                format!("c09/accepted-event-lost-for-good/{lk}"),
+                                format!("schedule {:?}: event {} had been accepted into the server's {name} log, a concurrent rewind-and-patch removed it, and after every device synced again to a fixpoint (all syncs Ok, replicas equal) it is still gone", out.granted, hex::encode(&c[..4])),
+                            ));
+                        }
+                    }
+                }
+                return Err(f);
             }
             Ok(())
         }
@@ -455,6 +558,19 @@ fn run(shard: &Shard, rep: &mut Report) {
             all_exhaustive = false;
             *tally.rep.classes.entry("case-schedule-tree-capped".into()).or_default() += 1;
             // random scripts reach deeper parts of a capped tree
+            for pol in policies(c.offline.len().clamp(2, 3)) {
+                let mut out = SchedOutcome::default();
+                let r = block_on(run_schedule_with(&template, &[], Some(&pol), tol, &mut out));
+                sos_core::verif::set_clock(None);
+                let mut info = CaseInfo::default();
+                info.nontrivial = out.interposed;
+                info.class("policy-schedule");
+                if out.granted.iter().any(|g| g.1 == "patch") {
+                    info.class("policy-schedule/rewind-and-patch-request");
+                }
+                info.inner_evals = out.granted.len() as u64;
+                tally.record(&ScheduleCase { case: c.clone(), script: out.choices.clone() }, &info, r);
+            }
             for j in 0..8 {
                 let script = sample_one(shard, &format!("script-{i}-{j}"), &proptest::collection::vec(any::<u8>(), 40));
                 let mut out = SchedOutcome::default();
